@@ -84,7 +84,11 @@ func realise(rng *rand.Rand, ws []wsEntry, base map[string]string, style string)
 			ops = append(ops, kvOp{Op: "snap"}, kvOp{Op: "set", A: e.A, K: "zz-unrelated", V: fmt.Sprintf("u%d", n)},
 				kvOp{Op: "set", A: rng.Intn(4), K: kvKeys[rng.Intn(len(kvKeys))], V: fmt.Sprintf("u%d", n)}, kvOp{Op: "revert", N: 0})
 		case "revert-acct-field":
-			ops = append(ops, kvOp{Op: "getacct", A: 3}, kvOp{Op: "snap"}, kvOp{Op: "bal", A: 3, N: int64(77 + n)}, kvOp{Op: "revert", N: 0})
+			// a reverted balance / nonce / code write, on an account that is otherwise untouched (3) and on the
+			// account of the entry itself (which then gets its real write)
+			acct := []int{3, e.A}[rng.Intn(2)]
+			w := []kvOp{{Op: "bal", A: acct, N: int64(77 + n)}, {Op: "nonce", A: acct, N: int64(900 + n)}, {Op: "code", A: acct, V: fmt.Sprintf("tmpcode%d", n)}}[rng.Intn(3)]
+			ops = append(ops, kvOp{Op: "getacct", A: acct}, kvOp{Op: "snap"}, w, kvOp{Op: "revert", N: 0})
 		case "restore-storage":
 			if strings.HasPrefix(e.Field, "s:") {
 				// another key of the same account: written, then put back to its committed value
